@@ -573,6 +573,21 @@ def gen_runs(rng, thorough, cmds_per_mode):
     for t, c, cmd in fixed + (rest if thorough else rest[:4]):
         runs.append({"kind": "group", "transform": cmd, "in_place": 0, "no_copy": 0, "extra": rng.choice([[], [], ["-o", "@OUT@"], ["--cache"]]),
                      "label": "tmpdir_" + t, "tmpdir": t, "cwd": c, "root": rng.choice([".", "abs"])})
+    # --base-dir (the tree itself / the directory above it) + relative roots + a RELATIVE -o (fresh name, the name of a scanned
+    # file, a name inside a scanned directory), started from a working directory outside the tree, in every report format:
+    # the roots are relative to the base dir, the report belongs to the working directory
+    bcombos = [(bd, o, fmt, r) for bd in ("tree", "above") for o in ("dupes.txt", "@EXISTING@", "@EXISTING_DIR@/new.txt", "sub/r.out")
+               for fmt in ("default", "fdupes", "csv", "json") for r in ("dot", "subdirs")]
+    bfixed = [("tree", "dupes.txt", "default", "dot"), ("tree", "@EXISTING@", "json", "dot"), ("above", "@EXISTING@", "csv", "subdirs")]
+    brest = [x for x in rng.shuffle(bcombos) if x not in bfixed]
+    for bd, o, fmt, r in bfixed + (brest[:20] if thorough else brest[:3]):
+        extra = ["-f", fmt] + rng.choice([[], [], ["--cache"], ["-H"]])
+        run = {"kind": "group", "transform": None, "extra": extra, "label": "base_dir", "base_dir": bd, "roots": r, "out_rel": o,
+               "cwd": "work", "base_dir_style": rng.choice(["abs", "rel"]), "has_output": True}
+        if rng.chance(1, 5):
+            run.update({"transform": "cat $IN", "in_place": 0, "no_copy": 0})
+            run["extra"] = ["-f", fmt]
+        runs.append(run)
     # usable $TMPDIR, fclones started from inside the tree
     for cmd, ip, nc in (("cat $IN", 0, 0), ("true $IN $OUT", 0, 1)) + ((("rewrite.sh $IN", 1, 0), ("cat", 0, 0)) if thorough else ()):
         runs.append({"kind": "group", "transform": cmd, "in_place": ip, "no_copy": nc, "extra": [], "label": "cwd_in_tree", "cwd": "tree",
@@ -600,8 +615,9 @@ class Job:
         self.out = os.path.join(base, "out")
         self.bin = os.path.join(base, "bin")
         self.home = os.path.join(base, "home")
+        self.work = os.path.join(base, "work")      # a working directory outside the tree that is not the base dir either
         self.root_style = root_style
-        for d in (self.tmp, self.cache, self.out, self.bin, self.home):
+        for d in (self.tmp, self.cache, self.out, self.bin, self.home, self.work):
             shutil.rmtree(d, ignore_errors=True)
             os.makedirs(d)
         for n, body in SCRIPTS.items():
@@ -640,6 +656,33 @@ class Job:
     def argv(self, run):
         outfile = os.path.join(self.out, "out_%d.txt" % self.nrun)
         sub = lambda xs: [x.replace("@OUT@", outfile).replace("@MOVEDIR@", os.path.join(self.out, "moved_%d" % self.nrun)) for x in xs]
+        self.outfile_abs = None
+        if run["kind"] == "group" and run.get("base_dir"):
+            # `--base-dir DIR <relative roots> -o <relative name>` started from self.work: the roots are relative to DIR,
+            # the report path is relative to the working directory
+            files = [bytes.fromhex(e["p"]) for e in self.spec if e["t"] == "file"]
+            dirs = [bytes.fromhex(e["p"]) for e in self.spec if e["t"] == "dir"]
+            if run["base_dir"] == "tree":
+                bd, pre = self.tree, ""
+                roots = {"dot": ["."], "subdirs": [os.fsdecode(d) for d in dirs[:2]] or ["."]}[run.get("roots", "dot")]
+            else:
+                bd, pre = self.base, "tree/"
+                roots = {"dot": ["tree"], "subdirs": ["tree/" + os.fsdecode(d) for d in dirs[:2]] or ["tree"]}[run.get("roots", "dot")]
+            name = run["out_rel"]
+            if name == "@EXISTING@":        # a name that exists below the base dir (a scanned file)
+                name = pre + os.fsdecode(files[0])
+            elif name == "@EXISTING_DIR@/new.txt":
+                name = pre + (os.fsdecode(dirs[0]) + "/new.txt" if dirs else "new.txt")
+            if name.startswith("-"):
+                name = "./" + name          # clap would take it for an option
+            shutil.rmtree(self.work, ignore_errors=True)
+            os.makedirs(os.path.dirname(os.path.join(self.work, name)) or self.work, exist_ok=True)
+            self.outfile_abs = os.path.normpath(os.path.join(self.work, name))
+            bd_arg = bd if run.get("base_dir_style", "abs") == "abs" else os.path.relpath(bd, self.work)
+            a = [self.fclones, "group", "--base-dir", bd_arg] + roots + ["-o", name] + sub(run.get("extra", []))
+            if run.get("transform") is not None:
+                a += ["--transform", run["transform"]]
+            return a, None
         if run["kind"] == "group":
             root = {"abs": self.tree, "rel": "tree", "dot": "./tree/"}[self.root_style]
             if run.get("cwd") == "tree":        # fclones is started from inside the scanned tree
@@ -671,7 +714,7 @@ class Job:
         self.nrun += 1
         argv, stdin_file = self.argv(run)
         tmp_run = self.tmp_for(run)
-        cwd = self.tree if run.get("cwd") == "tree" else self.base
+        cwd = self.tree if run.get("cwd") == "tree" else self.work if run.get("cwd") == "work" else self.base
         tdir = os.path.join(self.base, "trace_%d" % self.nrun)
         shutil.rmtree(tdir, ignore_errors=True)
         os.makedirs(tdir)
@@ -724,6 +767,11 @@ class Job:
                 res["problems"].append(("dry_run_created_target", "move --dry-run created %r" % mv, None))
                 for n in mv:
                     shutil.rmtree(os.path.join(self.out, n), ignore_errors=True)
+        if self.outfile_abs is not None and res["rc"] == 0:
+            # direct oracle 3: the report is where the user asked for it: <working directory>/<name>
+            if not os.path.isfile(self.outfile_abs):      # (may be empty: fdupes format without groups)
+                res["problems"].append(("report_not_in_working_directory",
+                                        "the run succeeded but there is no report at <cwd>/%s" % os.path.relpath(self.outfile_abs, self.work), None))
         if res["rc"] is not None and res["rc"] not in (0, 1):
             res["problems"].append(("fclones_crashed", "exit status %r: %s" % (res["rc"], res["stderr"][-300:]), None))
         # --- the trace
@@ -766,7 +814,8 @@ class Job:
                     per_tmp.setdefault(p, []).append((kind, ev["ret"]))
                 elif under(p, cacheb):
                     classes["CacheDir"] += 1
-                elif under(p, outb) and os.path.basename(p).startswith(b"out_"):
+                elif (under(p, outb) and os.path.basename(p).startswith(b"out_")) or \
+                        (self.outfile_abs is not None and p == os.fsencode(self.outfile_abs)):
                     classes["OutFile"] += 1
                 else:
                     res["problems"].append(("write_outside_allowed_places",
@@ -791,7 +840,7 @@ def model_plan(model, runs):
     lines = []
     for r in runs:
         cache = 1 if "--cache" in r.get("extra", []) else 0
-        out = 1 if "-o" in r.get("extra", []) else 0
+        out = 1 if ("-o" in r.get("extra", []) or r.get("has_output")) else 0
         if r["kind"] == "group" and r.get("transform") is not None:
             lines.append("plan %d %d %d %d %s%s" % (r.get("in_place", 0), r.get("no_copy", 0), cache, out, toks_string(r["transform"]),
                                                     " failmk" if r.get("tmpdir") in ("below_file", "dangling") else ""))
@@ -959,6 +1008,8 @@ def judge(ctx, tree_id, spec, run, res, mline, pending_corr, job):
     else:
         ctx.bump("dry_run_op", " ".join(x for x in run["op"] if not x.startswith("@")))
         ctx.bump("dry_run_options", " ".join(x for x in run["opts"] if x.startswith("-")) or "(none)")
+    if run.get("base_dir"):
+        ctx.bump("base_dir_run", "base=%s roots=%s -o %s format=%s" % (run["base_dir"], run.get("roots"), run["out_rel"].replace("@", ""), run["extra"][1]))
     ctx.bump("external_programs_started", min(res.get("nspawn", 0), 20))
     ctx.distinct((tree_id, json.dumps(run, sort_keys=True)), nontrivial)
     case = {"layer": "cli", "tree": spec, "run": run, "argv": res["argv"], "cwd": res.get("cwd"), "TMPDIR": res.get("TMPDIR"),
